@@ -2,6 +2,9 @@
    PostgreSQL drivers.  ExtrOcamlBasic only; nat, positive, N stay inductive. *)
 Require Extraction.
 Require Import ExtrOcamlBasic.
-From Atlas Require Import Base.Bytes Diff.Schema Diff.DiffModel Diff.DiffSqlite Diff.DiffDialects Diff.DiffMysqlVariants.
+From Atlas Require Import Base.Bytes Diff.Schema Diff.DiffModel Diff.DiffSqlite Diff.DiffDialects Diff.DiffMysqlVariants Diff.DiffRealm Diff.DiffTableAttrs Diff.DiffCheckFlags Diff.DiffViews Diff.DiffObjects.
 Extraction Language OCaml.
-Extraction "model.ml" sqlite_schema_diff sqlite_table_diff mysql_schema_diff mysql_table_diff pg_schema_diff pg_table_diff pg_public_schema_diff pg_public_table_diff mysql_schema_diff_v mysql_table_diff_v.
+Extraction "model.ml" sqlite_schema_diff sqlite_table_diff mysql_schema_diff mysql_table_diff pg_schema_diff pg_table_diff pg_public_schema_diff pg_public_table_diff mysql_schema_diff_v mysql_table_diff_v
+  sqlite_realm_diff sqlite_schema_diff_x mysql_realm_diff_v mysql_schema_diff_x_v pg_realm_diff_ns pg_schema_diff_x_ns
+  mysql_schema_diff_tx mysql_table_diff_tx pg_schema_diff_tx pg_table_diff_tx mysql_table_diff_xk pg_table_diff_xk
+  sqlite_schema_diff_v mysql_schema_diff_v_v pg_schema_diff_v_ns pg_schema_diff_o.
